@@ -64,8 +64,10 @@ arr_real FIRRateConverter::process(const arr_real& in) {
 }
 
 int FIRRateConverter::delay() const noexcept {
-    //TODO: must be N/2
-    return sublen_ / 2 + 1;
+    //group delay in output samples: output `o` is taken at position (o+1)*decim-1 of the
+    //interpolated stream, which the filter delays by half of its length (sublen*interp/2)
+    const int c = (sublen_ * interp_) / 2 + 1 - decim_;
+    return (c <= 0) ? 0 : ((2 * c + decim_) / (2 * decim_));
 }
 
 int FIRRateConverter::interp_rate() const noexcept {
